@@ -21,6 +21,10 @@ transformations of the code.
 Arrays of shape (npart, dim) are stored *by columns* (`List` of `dim` columns with `npart`
 entries each): every numpy operation used by the code (`vel * mass`, `np.sum(.., axis=0)`,
 `vel -= mom / mass.sum()`, the trace of `einsum('ij,ik->jk')`) acts column by column.
+Masses are rationals here; in the code they are numpy arrays whose dtype follows the user's input
+(an all-integer `mass = [2, 16]` gives an int64 array for GROMACS `masses` / TurtleMD
+`particles.mass`).  The model has no dtype, so the code must not depend on it (`1 / mass` is true
+division; an integer reciprocal would give σ = 0): the tie feeds float, int and int64 mass lists.
 No imports: this file is compiled into the driver.
 -/
 namespace Infretis.Vel
